@@ -21,6 +21,9 @@ CHECKS = {
  "C05": dict(tech="invariant monitor on parsed graphs + metamorphic oracle over >=9 JSON re-encodings, repeated and explicit-format parses",
    text="Inputs from the harness's own SPDX 2.3 and CycloneDX 1.3-1.5 JSON generators (arbitrary nesting, duplicate/missing bom-refs, absent metadata component, self-containment, special relationship targets), from protobom's writers and from mutated real SBOMs are parsed; an invariant monitor checks closure, id non-emptiness/uniqueness relative to the input and the alphabet/uniqueness of generated ids; each input is re-parsed from the same bytes, with the format stated explicitly and under white-space, member-order and string-escape re-encodings produced by an order-preserving JSON tree, and all parses must be equivalent with identical identifiers. NewNodeIdentifier is monitored on arbitrary seeds.",
    note="Array order is part of the JSON value and is not permuted. Escapes in strings that tools-golang reads from raw bytes are the known finding spdx-raw-string-escape (computed signature: the same escape mode with those positions left alone must be equivalent).", ref="DESIGN.md §5 C05"),
+ "C06": dict(tech="partial reference detector + instrumented ReadSeeker (offset monitor) over writer outputs x indentations x re-encodings and a negative/near-miss corpus",
+   text="Writer outputs for SPDX 2.3 and CycloneDX 1.3/1.4/1.5 at six indentations and under eight JSON re-encodings must be detected as exactly that format, with agreeing Type/Version/Encoding accessors, the stream back at offset 0 (an instrumented ReadSeeker records every Read/Seek) and ParseStream equal to ParseStreamWithOptions(F); a corpus of negative and near-miss declarations (nested, in arrays, in strings, unsupported versions, tag-value files quoting a supported version elsewhere, no marker) must be rejected; soups and mutated declarations are executed for totality and rewind.",
+   note="The reference detector is deliberately partial and decides only clear cases; everything else is executed for totality and rewind only.", ref="DESIGN.md §5 C06"),
  "C08": dict(tech="invariant monitor (well-formed / normalised) after every step of exhaustive small-universe and random operation programs",
    text="Runtime invariant monitoring: every result of every editing operation is checked for well-formedness (and normalisation where the statement requires it), RemoveNodes against its exact set model. All 4301 well-formed lists on <=3 ids are enumerated as receivers (thorough: against all 4301 arguments), plus random operation histories whose results re-enter the pool. Decides the property for the executions produced; exhaustive only on the enumerated universe.",
    note="Trusts the harness's own WF/normalised predicates and protobuf reflection (proto.Clone). Operands are well-formed by construction and re-checked before each step.", ref="DESIGN.md §5 C08"),
